@@ -77,6 +77,21 @@ theorem C20_map_keys_any_source (src : Definition) (st : Strategy) (r : RState)
   have := replayVariants_keys src.defs st src.variants {} none 0 r h
   simpa [List.range_eq_range'] using this
 
+/-- the replay leaves the target builder ready: `build()` succeeds on it, and the definition it
+    returns has as many variants as the source, each with as many data as its source variant -/
+theorem C20_target_builds (reqs : List Req) (hv : ∀ r ∈ reqs, r.valid) (src : Definition)
+    (hb : (run reqs).build = some src) (st : Strategy) :
+    ∃ r tgtDef, replay src st = .ok r ∧ r.tgt.build = some tgtDef ∧
+      tgtDef.variants.length = src.variants.length ∧
+      ∀ (k : Nat) (t v : List Nat), tgtDef.variants[k]? = some t → src.variants[k]? = some v →
+        t.length = v.length := by
+  obtain ⟨r, hr, hlen, _, hcb, hvars, _⟩ := C20_replay reqs hv src hb st
+  refine ⟨r, ⟨r.tgt.defs, r.tgt.variants⟩, hr, ?_, hlen, ?_⟩
+  · unfold BState.build; simp [hcb]
+  · intro k t v ht hv'
+    have := (hvars k t v ht hv').length_eq
+    simpa using this
+
 /-- non-vacuity: the example history replays, with the identity variant map -/
 example : (match (run Ex.h1).build with
     | some d => (match replay d .basic with | .ok r => r.vMap | _ => [])
